@@ -102,18 +102,23 @@ def _worker(histories):
     states = trans = 0
     PQ = R.consts.PhysicalQuantities
     for hist in histories:
+        def snap(xs):
+            # summaries are taken at once: a result must not change after it was returned (objects shared between
+            # results - e.g. through a cache - would otherwise change on both sides of the comparison)
+            return [x if isinstance(x, tuple) or x is None else ("SUMMARY", msg_summary(x)) for x in xs]
+
         def h():
-            ref0 = probes(R, R.decoder.NMEA2000Decoder(), w, sym)      # before any other instance has been used
+            ref0 = snap(probes(R, R.decoder.NMEA2000Decoder(), w, sym))      # before any other instance has been used
             B = R.decoder.NMEA2000Decoder()
             others = {"units": R.decoder.NMEA2000Decoder(preferred_units={PQ.ANGLE: "deg", PQ.TEMPERATURE: "C"}), "encoder": R.encoder.NMEA2000Encoder()}
             A = R.decoder.NMEA2000Decoder()
             A2 = R.decoder.NMEA2000Decoder()
-            outA = [do_item(R, A, others, w, it, sym) for it in hist]
-            outA2 = [do_item(R, A2, others, w, it, sym) for it in hist]
-            pa_ = probes(R, A, w, sym)
-            pb_ = probes(R, B, w, sym)
+            outA = snap([do_item(R, A, others, w, it, sym) for it in hist])
+            outA2 = snap([do_item(R, A2, others, w, it, sym) for it in hist])
+            pa_ = snap(probes(R, A, w, sym))
+            pb_ = snap(probes(R, B, w, sym))
             C = R.decoder.NMEA2000Decoder()
-            pc_ = probes(R, C, w, sym)
+            pc_ = snap(probes(R, C, w, sym))
             defaults = [d_ for d_ in R.decoder.NMEA2000Decoder.__init__.__defaults__ if isinstance(d_, (list, dict))]
             return outA, outA2, pa_, pb_, pc_, all(len(d_) == 0 for d_ in defaults), ref0
         try:
@@ -140,6 +145,8 @@ def _worker(histories):
                 continue
 
             def summ(x):
+                if isinstance(x, tuple) and x and x[0] == "SUMMARY":
+                    return x[1]
                 if isinstance(x, tuple):
                     return x
                 return msg_summary(x)
@@ -151,7 +158,7 @@ def _worker(histories):
             for a, a2 in zip(outA, outA2):
                 cl.append(eq_any(summ(a), summ(a2)))
             # a probe must be decoded at all by the fresh decoder (vacuity guard)
-            if pc_[0] is None or pc_[1] is None or isinstance(pc_[1], tuple):
+            if pc_[0] is None or pc_[1] is None or (isinstance(pc_[1], tuple) and pc_[1][0] != "SUMMARY"):
                 rep.error("probe not decodable by a fresh decoder: harness broken")
                 continue
             st, m = prove(z3.And(*cl), assume + pa.pc, label="isolation")
